@@ -1040,7 +1040,7 @@ pub fn gen_schedule(r: &mut Rng, g: &GenCfg, steps: usize, prop: &str, backpress
                 do_act(&mut w, &mut sv, &mut actions, "U".to_string()).await;
                 continue;
             }
-            let a = r.below(if faulted { 9 } else if g.faults || g.wfaults { 14 } else { 12 });
+            let a = r.below(if faulted { 9 } else if g.faults || g.wfaults || prop == "C01" { 14 } else { 12 });
             match a {
                 // requests
                 0 | 1 | 2 if connected && main_alive => {
@@ -1128,6 +1128,24 @@ pub fn gen_schedule(r: &mut Rng, g: &GenCfg, steps: usize, prop: &str, backpress
                     if r.chance(1, 10) {
                         faulted = true;
                         do_act(&mut w, &mut sv, &mut actions, format!("w{}", r.below(IO_KINDS.len()))).await;
+                    }
+                }
+                12 | 13 if !faulted && !g.faults && prop == "C01" => {
+                    // C01: a line the parser rejects in the middle of a reply (a real MPD sends such keys,
+                    // e.g. `MP3GAIN_MINMAX` in readcomments): that request fails, and no later request
+                    // may be handed what is left of its reply
+                    if r.chance(1, 5) {
+                        faulted = true;
+                        if !sv.out.is_empty() {
+                            let lfs: Vec<usize> = sv.out.iter().enumerate().filter(|(_, b)| **b == b'\n').map(|(i, _)| i + 1).filter(|p| *p < sv.out.len()).collect();
+                            if !lfs.is_empty() {
+                                let k = *r.pick(&lfs);
+                                let v: Vec<u8> = sv.out.drain(..k).collect();
+                                do_act(&mut w, &mut sv, &mut actions, format!("d{}", hex(&v))).await;
+                            }
+                        }
+                        let garbage: &[u8] = *r.pick(&[&b"MP3GAIN_MINMAX: 052,167\n"[..], b"foo bar: x\n", b"OK\r\n", b"Title: \xff\xfe\n", b"a: b\nREPLAYGAIN_2: x\nc: d\n"]);
+                        do_act(&mut w, &mut sv, &mut actions, format!("d{}", hex(garbage))).await;
                     }
                 }
                 12 | 13 if !faulted && r.chance(1, 3) => {
